@@ -95,7 +95,7 @@ func c05Run(w *W) {
 		for ; wireSeen < len(wire); wireSeen++ {
 			m := wire[wireSeen]
 			raw := m.Bytes()
-			i := bytes.Index(raw, []byte("re:"))
+			i := bytes.LastIndex(raw, []byte("re:")) // the last one: random backtrace words may spell "re:" too
 			if i < 0 {
 				w.Failf("C05/invented-transmission", "%s transmitted %x on %s, which is no reply the application sent", kind, raw, m.Pipe.Name)
 				return
